@@ -14,6 +14,11 @@ def make_replay(prop, failures, results, tier, seed, repo, verif):
            'failed_obligations': [{'unit': u, 'obligation': f['obligation'], 'message': f['message'],
                                    'verifier_output': f.get('rendered', ''), 'origins': f.get('origins', [])} for u, f in failures],
            'how_to_reproduce': 'cd /verif && ./check %s --tier %s   (re-extracts the functions from /repo and re-runs the verifier)' % (prop, tier)}
+    for u, f in failures:
+        if f.get('failing_input'):
+            rec['failing_input_found'] = True
+            rec['failing_input'] = f['failing_input']
+            break
     try:
         import replay_search
         found = replay_search.search(prop, failures, seed, repo, verif)
